@@ -285,7 +285,10 @@ macro_rules! set_impl {
                     }
                     _ => {}
                 }
-                tick();
+                // "notick": the next operation happens in the same executor tick (before pending effects are flushed)
+                if !op["notick"].as_bool().unwrap_or(false) {
+                    tick();
+                }
                 let reads: Vec<Value> = handles
                     .borrow()
                     .iter()
